@@ -460,19 +460,27 @@ def gen_case_rename_collision(rng, k):
     return {"cls": "A", "mode": "full", "cmp_forced": False, "tree": sub, "desc": "rename collision onto an unchanged name k=%d" % k}
 
 
-def gen_case_failed_chain(rng, n, with_rules):
-    """MergeFailed chain of length n carrying one payload, optionally renamed at every step"""
+def gen_case_failed_chain(rng, n, with_rules, overlimit=False):
+    """MergeFailed chain of length n carrying one payload, optionally renamed at every step;
+    overlimit: every table holds more (forced) metrics than its limit, so that ApplyRules takes its
+    lift-the-limit branch (seeded/C02c: the attempt counter was lost there)"""
     names = ["Custom/a/b", "Custom/a/c", "x"]
-    units = gen_units(rng, 6, names, ["T"], forced_policy(rng, True), allow_count=False)
-    sub = units_to_nodes(rng, new_node(1000), units)
+    mx = 3 if overlimit else 1000
+    if overlimit:
+        units = [{"u": "raw", "name": nm, "scope": sc, "forced": True, "d": [1, 1 << (3 * i + j), i + 1, i + 2, i + 3, i + 4]}
+                 for i, nm in enumerate(names + ["Custom/z", "y/1", "y/2"]) for j, sc in enumerate(["", "T"])]
+    else:
+        units = gen_units(rng, 6, names, ["T"], forced_policy(rng, True), allow_count=False)
+    sub = units_to_nodes(rng, new_node(mx), units)
     rules = [{"match_expression": "^Custom/(.*)$", "replacement": "C/\\1", "eval_order": 1}]
     for _ in range(n):
         if with_rules:
             sub = {"k": "rules", "b": sub, "rules": json.dumps(rules)}
-        sub = {"k": "mfail", "b": new_node(1000), "f": sub}
+        sub = {"k": "mfail", "b": new_node(mx), "f": sub}
     if with_rules:
         sub = {"k": "rules", "b": sub, "rules": json.dumps(rules)}
-    return {"cls": "A", "mode": "full", "cmp_forced": True, "tree": sub, "desc": "failed chain n=%d rules=%s" % (n, with_rules)}
+    return {"cls": "A", "mode": "full", "cmp_forced": True, "tree": sub,
+            "desc": "failed chain n=%d rules=%s overlimit=%s" % (n, with_rules, overlimit)}
 
 
 # ----------------------------------------------------------------------------- Coq printing
@@ -626,6 +634,55 @@ def which_monitor(i, case, obs, pre):
     return [names[j] for j in idx if j < len(names)]
 
 
+# ----------------------------------------------------------------------------- a table stage for other properties
+
+def retry_cases(rng):
+    """C02: carried-over metric tables that keep failing, with and without rename rules, below and above the limit"""
+    cs = []
+    for n in (1, 4, 5, 6, 7, 9):
+        for rules in (False, True):
+            for over in (False, True):
+                cs.append(gen_case_failed_chain(rng, n, rules, overlimit=over))
+    return cs
+
+
+def run_table_cases(chk, tcases, tag, what):
+    """run table cases against the real MetricTable and judge them in Coq (correspondence with Metrics.exec and
+    the table monitors); used by the C02 check for the attempt bound of metric payloads"""
+    okm, outm = vlib.coq_make(["MetricsMonitor.vo", "RulesMonitor.vo"])
+    if not okm:
+        chk.fail("%s_build.txt" % tag, "metric monitor files do not build:\n" + outm[-2000:], no_input=True)
+        return
+    binary, blog = vlib.go_test_binary("newrelic", only=["c07"])
+    if binary is None:
+        chk.fail("%s_harness_build.txt" % tag, "metric table harness does not build against the current tree:\n" + blog, no_input=True)
+        return
+    inp = os.path.join(vlib.BUILD, tag + "_in.json")
+    outp = os.path.join(vlib.BUILD, tag + "_out.json")
+    json.dump({"tables": [c["tree"] for c in tcases], "rules": []}, open(inp, "w"))
+    if os.path.exists(outp):
+        os.remove(outp)
+    rc, out = vlib.run_go_test(binary, "TestVerifC07", {"VERIF_IN": inp, "VERIF_OUT": outp}, timeout=300)
+    if rc != 0 or not os.path.exists(outp):
+        chk.fail("%s_harness_run.txt" % tag, "harness TestVerifC07 failed (rc=%d):\n%s" % (rc, out[-3000:]), no_input=True)
+        return
+    obs = json.load(open(outp))
+    tobs, tpres = obs["tables"], obs["pres"]
+    r, cout = eval_shard("cases_" + tag, tcases, tobs, tpres, 0, [], [], 0)
+    if r is None:
+        chk.fail("%s_eval.txt" % tag, "in-Coq evaluation of the table cases failed:\n" + cout[-3000:], no_input=True)
+        return
+    for c in tcases:
+        chk.count_case(c["tree"])
+    chk.cov.setdefault("stages", {})[tag] = {"table_cases": len(tcases), "monitor_false": len(r["t_mon_bad"]),
+                                             "differs_from_model": len(r["t_corr_bad"])}
+    bad = sorted(set(r["t_mon_bad"]) | set(r["t_corr_bad"]))
+    for i in bad[:4]:
+        chk.fail("%s_%d.json" % (tag, i), {"what": what, "case": tcases[i]["desc"], "tables": [tcases[i]], "observed": tobs[i],
+                                           "monitor_false": i in r["t_mon_bad"], "differs_from_model": i in r["t_corr_bad"],
+                                           "replay": "./check C07 quick --replay <this file>"}, sig="%s-table" % tag)
+
+
 # ----------------------------------------------------------------------------- the check
 
 def run(chk, replay=None):
@@ -648,6 +705,8 @@ def run(chk, replay=None):
         for n in (1, 4, 5, 6, 7):
             tcases.append(gen_case_failed_chain(rng, n, False))
             tcases.append(gen_case_failed_chain(rng, n, True))
+            tcases.append(gen_case_failed_chain(rng, n, True, overlimit=True))
+        tcases.append(gen_case_failed_chain(rng, 6, False, overlimit=True))
         for k in (1, 2, 4, 8, 8, 6) if quick else [1, 2, 3, 4, 5, 6, 7, 8] * 8:
             tcases.append(gen_case_rename_collision(rng, k))
         for i in range(12 if quick else 100):
